@@ -120,7 +120,13 @@ def observe(c):
     if c.get("traj_units"):
         data = data.convert(sysgen.py_sys(U, c["traj_units"]))          # the trajectory states its amounts in a unit of its own
     tr = RDTrajectory(data=data, t_sample=U.UnitArray([0.0], "s"), system=cgs, script=None, engine_description="x", engine_option="x")
+    before = [float(v) for v in tr.data.value]
     out["uncg"] = [float(v) for v in cg.uncoarsegrain_trajectory_data(tr, grid, list(c["im"])).convert(us).value]      # as amounts, not as bare numbers
+    # a pure function of the trajectory: the trajectory is left as it was, and asking again gives the same answer
+    again = [float(v) for v in cg.uncoarsegrain_trajectory_data(tr, grid, list(c["im"])).convert(us).value]
+    if again != out["uncg"] or [float(v) for v in tr.data.value] != before:
+        out["uncg"] = again if again != out["uncg"] else [-1.0e300] * len(again)
+        out["uncg_impure"] = True
     # simulating with the identity map reproduces the plain simulation (Euler)
     out["identity_ok"] = None
     if c["kind"] == "identity":
